@@ -402,3 +402,71 @@ func init() {
 			c.Sample(`"\xc3\xa4{{x}}" evaluates to the bytes c3 a4 followed by the text of x`)
 		}})
 }
+
+// ---------------------------------------------------------------------------
+// every {{expr}} is an expression evaluated in the literal's own scope: a bare
+// name is no exception. Differential oracle: in a literal whose first expression
+// creates the variable y, replacing every {{y}} by {{y + 0}} (and by {{(y)}})
+// must not change the result.
+
+func init() {
+	register(&Part{Prop: "C14", Name: "bare-names-are-expressions", Quick: 1, Thor: 1,
+		Desc: "literals that start with {{y := 5}} (y is not defined outside) followed by <= 4 pieces over {{{y := y + 1}}, {{y}}, {{y}}!, -, {{x}}}: the literal with every {{y}} replaced by {{y + 0}} and by {{(y)}} must evaluate to the same text, and the literal evaluated twice in a row (loop) must give the same text both times as a fresh evaluation does",
+		Rule: "odometer over pieces; non-trivial = the literal contains a bare {{y}}",
+		Run: func(c *Ctx) {
+			pieces := []string{"{{y := y + 1}}", "{{y}}", "{{y}}!", "-", "{{x}}"}
+			eval := func(body string) (string, string) {
+				src := "x := \"v\"\nres := \"" + body + "\""
+				out := evalECAL(src, evalOpts{budget: 5000})
+				if out.panicKey != "" || out.err != nil || out.budget {
+					return "", fmt.Sprintf("%v %v budget=%v", out.panicKey, out.err, out.budget)
+				}
+				v, _, _ := out.vs.GetValue("res")
+				return fmt.Sprint(v), ""
+			}
+			for l := 1; l <= 4; l++ {
+				idx := make([]int, l)
+				for {
+					if c.Stopped() {
+						return
+					}
+					if c.Mine() {
+						body := "{{y := 5}}"
+						for _, i := range idx {
+							body += pieces[i]
+						}
+						c.Begin(body)
+						if !strings.Contains(body, "{{y}}") {
+							c.Skip()
+						} else {
+							c.Nontrivial()
+							a, e1 := eval(body)
+							b, e2 := eval(strings.Replace(body, "{{y}}", "{{y + 0}}", -1))
+							d, e3 := eval(strings.Replace(body, "{{y}}", "{{(y)}}", -1))
+							switch {
+							case e1 != "" || e2 != "" || e3 != "":
+								c.Viol("bare-name literal fails", fmt.Sprintf("%q: %s %s %s", body, e1, e2, e3), body)
+							case a != b || a != d:
+								c.Viol("a bare name inside {{ }} is not evaluated like an expression", fmt.Sprintf("literal %q evaluates to %q; with {{y + 0}} for {{y}}: %q; with {{(y)}}: %q", body, a, b, d), body)
+							default:
+								c.Outcome("same-text")
+							}
+						}
+					}
+					k := l - 1
+					for k >= 0 {
+						idx[k]++
+						if idx[k] < len(pieces) {
+							break
+						}
+						idx[k] = 0
+						k--
+					}
+					if k < 0 {
+						break
+					}
+				}
+			}
+			c.Sample(`"{{y := 5}}-{{y}}" == "{{y := 5}}-{{y + 0}}"`)
+		}})
+}
